@@ -125,6 +125,12 @@ def _canon_local(B, l, depth):
     return ('call', r or g, bb)
 
 
+def call_args_desc(B, c):
+    """canonical values of the arguments of a ('call', name, bb) canon (description only)"""
+    t = B.blocks[c[2]]['t']
+    return [canon(B, a, 30) for a in t['args']]
+
+
 def canon(B, op, depth=0):
     if op['k'] == 'c':
         if 'v' in op:
@@ -307,6 +313,15 @@ class Ranges:
             lo, hi = max(lo, 0), min(hi, LEN_MAX)
         elif k == 'remaining':
             lo, hi = max(lo, 0), min(hi, LEN_MAX)
+        elif k == 'call' and tr is None:
+            t = self.B.blocks[c[2]]['t']
+            r0 = ty_range(self.B.local_ty(t['dst']['l'])) if not t['dst'].get('p') else None
+            if r0:
+                lo, hi = r0
+        elif k in ('arg', 'local') and tr is None:
+            r0 = ty_range(self.B.local_ty(c[1]))
+            if r0:
+                lo, hi = r0
         elif k == 'cast':
             inner = self._range_canon(c[2], bb, None, use_facts, depth + 1)
             to = ty_range(c[1])
